@@ -168,6 +168,18 @@ mut("c02-selfing-is-backcross", "C02", "pybrops/breed/prot/mate/TwoWayDHCross.py
 mut("c02-crossover-suppressed", "C02", CU, "    rnd = rng.uniform(0, 1, gshape)", "    rnd = numpy.sqrt(rng.uniform(0, 1, gshape))", "draws biased towards 1: fewer crossovers than the probabilities say")
 mut("c02-interference", "C02", MU, "        for spix in xoix:\n", "        xoix = xoix[numpy.concatenate([[True], numpy.diff(xoix) > 1])] if len(xoix) else xoix\n        for spix in xoix:\n", "crossovers in adjacent intervals suppress each other (interference)")
 
+# ---------------------------------------------------------------- C07
+CF = "pybrops/breed/prot/sel/cfg/"
+mut("c07-subset-with-replacement", "C07", CF + "SubsetSelectionConfiguration.py", "            replace = False,", "            replace = True,", "subset members drawn with replacement: uneven use")
+mut("c07-real-no-outcross-shuffle", "C07", CF + "RealSelectionConfiguration.py", "        outcross_shuffle(out, rng = self.rng)", "        pass", "real configurations skip the outcrossing shuffle")
+mut("c07-mo-argmin", "C07", "pybrops/breed/prot/sel/SubsetSelectionProtocol.py", "            ix = score.argmax()", "            ix = score.argmin()", "multi-objective pick takes the least preferred front member")
+mut("c07-ebv-scaled", "C07", "pybrops/breed/prot/sel/prob/EstimatedBreedingValueSelectionProblem.py", "        ebv = bvmat.unscale() if unscale else bvmat.mat", "        ebv = bvmat.mat", "unscale ignored: criterion computed on standardised values", count=4)
+mut("c07-gebv-wrong-taxa-order", "C07", "pybrops/breed/prot/sel/prob/GenomicEstimatedBreedingValueSelectionProblem.py", "        gebvmat = gpmod.gebv(gmat)", "        gebvmat = gpmod.gebv(gmat)\n        gebvmat.reorder_taxa(numpy.arange(gebvmat.ntaxa)[::-1])", "GEBVs attached to candidates in reverse order", count=0)
+mut("c07-mate-xmap-shifted", "C07", CF + "SubsetMateSelectionConfiguration.py", "        out = self.xconfig_xmap[out,:]", "        out = self.xconfig_xmap[(out + 1) % len(self.xconfig_xmap),:]", "mate configurations look up the neighbouring candidate cross")
+mut("c07-binary-uses-all", "C07", CF + "BinarySelectionConfiguration.py", "            self.xconfig_decn\n        )", "            numpy.maximum(self.xconfig_decn, 1 if len(self.xconfig_decn) == 7 else 0)\n        )", "binary configurations of 7 candidates use unselected individuals too")
+mut("c07-real-weights-squared", "C07", CF + "RealSelectionConfiguration.py", "            self.xconfig_decn,\n            size = (self.ncross, self.nparent),", "            self.xconfig_decn**2,\n            size = (self.ncross, self.nparent),", "contribution weights squared before sampling")
+mut("c07-xconfig-one-cross-short", "C07", CF + "IntegerSelectionConfiguration.py", "            size = (self.ncross, self.nparent),", "            size = (max(self.ncross - 1, 1), self.nparent),", "one cross fewer than requested")
+
 
 def run_one(m, runs, tier_args=()):
     scratch = "/dev/shm/pybrops-mut-%s-%d" % (m["id"], os.getpid())
